@@ -136,12 +136,12 @@ type sm9Fix struct {
 	rFixOnA    []byte      // fixed peer ephemeral point [rFix]Q_A (sent by a simulated responder B to initiator A), 65 bytes
 	rFixOnB    []byte      // [rFix]Q_B (sent by a simulated initiator A to responder B)
 
-	gS, gE     *hook.GT // e(P1, Ppub-s), e(Ppub-e, P2)
-	g2Init     *hook.GT // e(RB_fixed, deA)
-	g1Resp     *hook.GT // e(RA_fixed, deB)
-	wS, wE     func(v *big.Int) []byte
-	g3Init     func(v *big.Int) []byte
-	g3Resp     func(v *big.Int) []byte
+	gS, gE *hook.GT // e(P1, Ppub-s), e(Ppub-e, P2)
+	g2Init *hook.GT // e(RB_fixed, deA)
+	g1Resp *hook.GT // e(RA_fixed, deB)
+	wS, wE func(v *big.Int) []byte
+	g3Init func(v *big.Int) []byte
+	g3Resp func(v *big.Int) []byte
 }
 
 var (
